@@ -261,8 +261,20 @@ VALIDATORS = {
 }
 
 
-def entry(eid, docs, pipelines=(), validators=None, fmt="default"):
+SEP_FILTERS = {
+    "them": filt("Sep them", RID[:2], "adm: {User|startswith: 'adm_'}\nbkp: {User|startswith: 'bkp_'}\ncondition: not 1 of them"),
+    "host": filt("Sep host", RID[:2], "srv: {Host|startswith: 'srv_'}\ncondition: not srv"),
+    "wild": filt("Sep wild", RID[:2], "sel_a: {ParentImage|endswith: a}\nsel_b: {ParentImage|endswith: b}\nother: {Host: h}\ncondition: not (all of sel_* or other)"),
+    "star": filt("Sep star", RID[:2], "q1: {Q: 1}\ncondition: not 1 of *"),
+    "same1": filt("Sep same 1", RID[:2], "flt: {User: a}\ncondition: not 1 of them"),
+    "same2": filt("Sep same 2", RID[:2], "flt: {Host: b}\ncondition: not 1 of flt*"),
+}
+
+
+def entry(eid, docs, pipelines=(), validators=None, fmt="default", separate=()):
     e = {"id": eid, "docs": docs, "pipelines": list(pipelines), "format": fmt}
+    if separate:
+        e["filters_separate"] = list(separate)
     if validators is not None:
         e["validators"] = validators
     return e
@@ -292,6 +304,13 @@ def build_corpus(tier, rng):
     out.append(entry("underscore-selector", RULES["underscore_sel"], [P["add_condition"]]))
     out.append(entry("underscore-selector-filter", RULES["underscore_sel"].replace("title:", "id: " + RID[0] + "\ntitle:", 1)
                      + "---\n" + FILTERS["f_simple"]))
+    S = SEP_FILTERS
+    two = RULES["simple"] + "---\n" + RULES["multi_fields"]
+    out.append(entry("separate-them-host", two, separate=[S["them"], S["host"]]))
+    out.append(entry("separate-host-them", two, [P["add_condition"]], separate=[S["host"], S["them"]]))
+    out.append(entry("separate-wild-star-them", two, [P["one_to_many"]], separate=[S["wild"], S["star"], S["them"]]))
+    out.append(entry("separate-same-names", two, separate=[S["same1"], S["same2"], S["same1"]]))
+    out.append(entry("separate-plus-stream", two + "---\n" + FILTERS["f_them"], [P["nested"]], separate=[S["star"], S["host"]]))
     for k, v in CORRELATION.items():
         out.append(entry("corr-" + k, v, [P["one_to_many"]]))
         out.append(entry("corr-" + k + "-plain", v))
@@ -311,7 +330,9 @@ def build_corpus(tier, rng):
         fs = rng.sample(fk, rng.choice([0, 0, 1, 2]))
         docs = "---\n".join([RULES[k] for k in rs] + [FILTERS[k] for k in fs])
         v = rng.choice([None, None, VALIDATORS["all"], VALIDATORS["some"]])
-        out.append(entry(f"gen-{i}-" + "+".join(rs) + "|" + "+".join(ps) + "|" + "+".join(fs), docs, [P[k] for k in ps], validators=v))
+        sep = [S[k] for k in rng.sample(sorted(S), rng.choice([0, 0, 2, 3]))]
+        out.append(entry(f"gen-{i}-" + "+".join(rs) + "|" + "+".join(ps) + "|" + "+".join(fs) + ("|sep%d" % len(sep) if sep else ""),
+                         docs, [P[k] for k in ps], validators=v, separate=sep))
     return out
 
 
